@@ -379,38 +379,13 @@ theorem redundant_parens (c c' : CST) (h : c.WF) (hw : Wrap c c') :
   exact ⟨hwf', h2.trans h1.symm, h1⟩
 
 /-- … in particular for the printer's output, and repeatedly: any text obtained from
-    `exprToSource t` by re-layout and then any number of extra parentheses parses to `t`. -/
-theorem printed_text_with_extra_parens (t : Expr) (h : Frag t) (c : CST) (hr : Relayout t c) :
-    ∀ cs : List CST, cs ≠ [] → cs.head? = some c →
-      (∀ i, i + 1 < cs.length → Wrap cs[i]! cs[i + 1]!) →
-      ∀ c' ∈ cs, parseText (String.ofList c'.text) = some t := by
+    `exprToSource t` by re-layout and then any number of extra pairs of parentheses (`Wraps`)
+    parses to `t`. -/
+theorem printed_text_with_extra_parens (t : Expr) (h : Frag t) (c c' : CST) (hr : Relayout t c)
+    (hw : Wraps c c') : parseText (String.ofList c'.text) = some t := by
   obtain ⟨hwf, _, ht⟩ := relayout_wf h hr
-  -- every member is well-formed with tree `t`
-  have key : ∀ (cs : List CST) (c0 : CST), c0.WF → c0.tree = t → cs.head? = some c0 →
-      (∀ i, i + 1 < cs.length → Wrap cs[i]! cs[i + 1]!) → ∀ c' ∈ cs, c'.WF ∧ c'.tree = t := by
-    intro cs
-    induction cs with
-    | nil => intro _ _ _ _ _ _ hm; cases hm
-    | cons x xs ih =>
-      intro c0 hw0 ht0 hh hchain c' hm
-      simp only [List.head?_cons, Option.some.injEq] at hh
-      subst hh
-      rcases List.mem_cons.mp hm with rfl | hm
-      · exact ⟨hw0, ht0⟩
-      · cases xs with
-        | nil => cases hm
-        | cons y ys =>
-          have hxy : Wrap x y := by
-            have := hchain 0 (by simp)
-            simpa using this
-          obtain ⟨hty, _, hsy, hly⟩ := wrap_facts hxy
-          apply ih y ⟨hsy hw0.1, hly hw0.2⟩ (hty.trans ht0) rfl _ c' hm
-          intro i hi
-          have := hchain (i + 1) (by simp only [List.length_cons] at hi ⊢; omega)
-          simpa using this
-  intro cs _ hh hchain c' hm
-  obtain ⟨hw', ht'⟩ := key cs c hwf ht hh hchain c' hm
-  exact ht' ▸ cst_roundtrip c' hw'
+  obtain ⟨ht', hwf'⟩ := wraps_facts hw hwf
+  exact ht ▸ ht' ▸ cst_roundtrip c' hwf'
 
 /-! #### examples (non-vacuity) -/
 
@@ -420,6 +395,10 @@ private abbrev xc : Expr := .ident "c"
 private abbrev one : Expr := .num ⟨0x3FF0000000000000⟩
 private abbrev n42 : Expr := .num ⟨0x4045000000000000⟩
 
+/-- what the model computes for a text, shown as the printer's text of the parsed tree
+    (`Expr` has no decidable equality; the theorems above give the trees themselves) -/
+private def reads (s : String) : Option String := (parseText s).map exprToSource
+
 /-- `^` / `??` nesting: `(a ^ b) ^ (c ?? 42) ^ a` -/
 private abbrev u1 : Expr :=
   .bin .pow (.bin .pow xa xb) (.bin .pow (.bin .coalesce xc n42) xa)
@@ -427,9 +406,9 @@ example : Frag u1 := by decide +kernel
 example : exprToSource u1 = "(a ^ b) ^ c ?? 42 ^ a" := by decide +kernel
 example : items u1 = [.prim (.bin .pow xa xb), .inf "power", .prim xc, .inf "coalesce", .prim n42,
     .inf "power", .prim xa] := by rfl
-example : parseText "(a ^ b) ^ c ?? 42 ^ a" = some u1 := text_roundtrip u1 (by decide +kernel)
+example : parseText (exprToSource u1) = some u1 := text_roundtrip u1 (by decide +kernel)
 /-- … and the model computes it (no theorem involved) -/
-example : parseText "(a ^ b) ^ c ?? 42 ^ a" = some u1 := by rfl
+example : reads "(a ^ b) ^ c ?? 42 ^ a" = some "(a ^ b) ^ c ?? 42 ^ a" := by decide +kernel
 
 /-- prefix minus over a parenthesised sum, under a postfix `!`, with a word operator:
     `-(a + 1)! and !true` -/
@@ -437,10 +416,11 @@ private abbrev u2 : Expr :=
   .bin .nand (.un .negate (.fact (.bin .add xa one))) (.un .not (.bool true))
 example : Frag u2 := by decide +kernel
 example : exprToSource u2 = "-(a + 1)! and !true" := by decide +kernel
-example : parseText "-(a + 1)! and !true" = some u2 := text_roundtrip u2 (by decide +kernel)
-example : exprItems (fuelFor "-(a + 1)! and !true".toList) "-(a + 1)! and !true".toList =
-    some ([.pre "negation", .prim (.bin .add xa one), .postFact, .inf "natural_and", .pre "invert",
-      .prim (.bool true)], []) :=
+example : parseText (exprToSource u2) = some u2 := text_roundtrip u2 (by decide +kernel)
+example : items u2 = [.pre "negation", .prim (.bin .add xa one), .postFact, .inf "natural_and",
+    .pre "invert", .prim (.bool true)] := by rfl
+example : exprItems (fuelFor (exprToSource u2).toList) (exprToSource u2).toList =
+    some (items u2, []) :=
   print_then_lex u2 (by decide +kernel) _ (Nat.le_refl _)
 
 /-- a re-layout of `u2`: line break + blanks in front of `and`, a tab behind it, nothing around
@@ -451,16 +431,21 @@ private abbrev c2 : CST :=
     [.lf, .sp, .sp] [.tab]
     (.un .not (.atom (.bool true)))
 example : String.ofList c2.text = "-(\ta+1\r\n)!\n  and\t!true" := by decide +kernel
-example : Relayout u2 c2 := ⟨by rfl, ⟨⟨trivial, trivial, by decide +kernel⟩, trivial, by decide +kernel⟩⟩
-example : parseText "-(\ta+1\r\n)!\n  and\t!true" = some u2 :=
+example : Relayout u2 c2 :=
+  ⟨by rfl, ⟨⟨trivial, trivial, by decide +kernel⟩, trivial, by decide +kernel⟩⟩
+example : parseText (String.ofList c2.text) = some u2 :=
   (layout_insensitive u2 (by decide +kernel) c2
     ⟨by rfl, ⟨⟨trivial, trivial, by decide +kernel⟩, trivial, by decide +kernel⟩⟩).2
-example : parseText "-(\ta+1\r\n)!\n  and\t!true" = some u2 := by rfl
+example : reads "-(\ta+1\r\n)!\n  and\t!true" = some "-(a + 1)! and !true" := by decide +kernel
 
-/-- redundant parentheses around the inner `a` of `u1`'s printed form, and around the whole -/
-example : Wrap (canon u1) (.paren [.sp] (canon u1) []) := .here _ _ _
-example : parseText "( (a ^ b) ^ c ?? 42 ^ a)" = some u1 := by rfl
-example : parseText "((a) ^ ((b))) ^ (c) ?? (( 42 )) ^ a" = some u1 := by rfl
+/-- redundant parentheses: around all of `u1`'s printed form (theorem), around inner atoms and
+    groups (computed) -/
+example : parseText (String.ofList (CST.paren [.sp] (canon u1) []).text) = some (canon u1).tree :=
+  ((redundant_parens (canon u1) _ (canon_wf u1 (by decide +kernel)) (.here [.sp] _ [])).2.1).trans
+    (redundant_parens (canon u1) _ (canon_wf u1 (by decide +kernel)) (.here [.sp] _ [])).2.2
+example : reads "( (a ^ b) ^ c ?? 42 ^ a)" = some "(a ^ b) ^ c ?? 42 ^ a" ∧
+    reads "((a) ^ ((b))) ^ (c) ?? (( 42 )) ^ a" = some "(a ^ b) ^ c ?? 42 ^ a" := by
+  decide +kernel
 
 /-- WHAT THE LAYOUT CONDITIONS EXCLUDE, on the model (and on the real parser, see the harness):
     `!=` directly behind its left operand is the postfix `!` followed by `=`; a line break
@@ -468,20 +453,20 @@ example : parseText "((a) ^ ((b))) ^ (c) ?? (( 42 )) ^ a" = some u1 := by rfl
 example : CST.layOk .ne [] [.sp] = false ∧ CST.layOk .ne [.sp] [] = true ∧
     CST.layOk .nand [.sp] [.lf] = false ∧ CST.layOk .nand [] [.sp] = false ∧
     CST.layOk .dne [] [] = true := by decide +kernel
-example : parseText "a != b" = some (.bin .ne xa xb) ∧ parseText "a !=b" = some (.bin .ne xa xb) ∧
-    parseText "a!=b" = none ∧ parseText "a! !=b" = some (.bin .ne (.fact xa) xb) := by
-  refine ⟨by rfl, by rfl, by rfl, by rfl⟩
-example : parseText "a and b" = some (.bin .nand xa xb) ∧ parseText "a\nand b" = some (.bin .nand xa xb) ∧
-    parseText "a and\nb" = none ∧ parseText "(a)and b" = none ∧ parseText "a andb" = none := by
-  refine ⟨by rfl, by rfl, by rfl, by rfl, by rfl⟩
+example : reads "a != b" = some "a != b" ∧ reads "a !=b" = some "a != b" ∧ reads "a!=b" = none ∧
+    reads "a! !=b" = some "a! != b" ∧ reads "a.!=b" = some "a .!= b" := by decide +kernel
+example : reads "a and b" = some "a and b" ∧ reads "a\nand b" = some "a and b" ∧
+    reads "a and\nb" = none ∧ reads "(a)and b" = none ∧ reads "a andb" = none := by
+  decide +kernel
 /-- `///` is a comment, not `/` followed by a comment: why comments are left out of `Lay` -/
-example : parseText "a /\nb" = some (.bin .div xa xb) ∧
-    parseText "a / // c\nb" = some (.bin .div xa xb) ∧ parseText "a ///c\nb" = none := by
-  refine ⟨by rfl, by rfl, by rfl⟩
-/-- outside the fragment's atoms: reserved words are not identifiers, `~` has no prefix rule -/
+example : reads "a /\nb" = some "a / b" ∧ reads "a / // c\nb" = some "a / b" ∧
+    reads "a ///c\nb" = none := by decide +kernel
+/-- outside the fragment's atoms: reserved words are not identifiers, `~` has no prefix rule,
+    negative literals are `-` applied to a literal; built-in names are their own node -/
 example : ¬ Frag (.ident "not") ∧ ¬ Frag (.un .invert xa) ∧ ¬ Frag (.num ⟨0xBFF0000000000000⟩) ∧
     Frag (.builtin "sqrt") ∧ ¬ Frag (.ident "sqrt") := by decide +kernel
-example : parseText "sqrt + not_x" = some (.bin .add (.builtin "sqrt") (.ident "not_x")) := by rfl
+example : reads "sqrt + not_x" = some "sqrt + not_x" ∧
+    Frag (.bin .add (.builtin "sqrt") (.ident "not_x")) := by decide +kernel
 end text
 
 end Blots.C10
